@@ -79,8 +79,11 @@ def compare_readers(text, endian, align, pointer, datas, then=None):
     lb = ([f.offset for f in B.__fields__], B.size, B.alignment)
     if la != lb:
         probs.append({"what": "layout", "observed": repr(la), "expected": repr(lb)})
-    for d in datas:
-        ra, rb = structs.parse(a, "main", d, 0), structs.parse(b, "main", d, 0)
+    # every input at start 0; the first two also from a stream that stands at 1 and at 3 (after a short header): an aligned structure then starts
+    # off its alignment, and whatever a reader does with the absolute stream position shows
+    runs = [(d, 0) for d in datas] + [(bytes([0xEE] * st) + d, st) for d in datas[:2] for st in (1, 3)]
+    for d, st0 in runs:
+        ra, rb = structs.parse(a, "main", d, st0), structs.parse(b, "main", d, st0)
         try:
             ka = ("ok", structs.py_value(ra[1], A), ra[2]) if ra[0] == "ok" else ("err", type(ra[1]).__name__)
             kb = ("ok", structs.py_value(rb[1], B), rb[2]) if rb[0] == "ok" else ("err", type(rb[1]).__name__)
@@ -88,7 +91,7 @@ def compare_readers(text, endian, align, pointer, datas, then=None):
             continue
         if ka[0] == "ok" and kb[0] == "ok":
             if ka != kb:
-                probs.append({"what": "values / consumed bytes", "data": d.hex(), "observed": repr(ka)[:400], "expected": repr(kb)[:400]})
+                probs.append({"what": "values / consumed bytes", "data": d.hex(), "start": st0, "observed": repr(ka)[:400], "expected": repr(kb)[:400]})
             elif _noaddr(repr(ra[1])) != _noaddr(repr(rb[1])):
                 # equal integers, but members of different enum / flag / pointer classes
                 probs.append({"what": "values (member classes)", "data": d.hex(), "observed": repr(ra[1])[:400], "expected": repr(rb[1])[:400]})
